@@ -335,6 +335,8 @@ def small_graphs():
     # packets that do not both fit in the output stream of VecToStream (4096 bytes): the second one
     # has to wait until the sink has taken the first
     gs.append({"family": "sys_v2s_full", "stream_bytes": 4096, "nodes": [N("src_pkt", pkts=[[3000, 1], [2000, 100], [5, 200]]), N("v2s", [(1, 1)]), N("sink", [(2, 1)])]})
+    # ... and the LAST packet is the one that has to wait (nothing behind it in the queue)
+    gs.append({"family": "sys_v2s_last", "stream_bytes": 4096, "nodes": [N("src_pkt", pkts=[[3000, 1], [2000, 100]]), N("v2s", [(1, 1)]), N("sink", [(2, 1)])]})
     # blocks that wait for more than one sample: the source delivers in two instalments
     gs.append({"family": "sys_fft", "stream_bytes": 4096, "nodes": [N("src_f", data=[1, 2, 3, 4, 5, 6], chunks=[3, 3]), N("fftfiltf", [(1, 1)], taps=[1, 2, 3]), N("sink", [(2, 1)])]})
     gs.append({"family": "sys_fftc", "stream_bytes": 4096, "nodes": [N("src_c", data=[1, 2, 3, 4, 5, 6, 7], chunks=[3, 2, 2]), N("fftfiltc", [(1, 1)], taps=[1, 2, 3]), N("sink", [(2, 1)])]})
